@@ -1,5 +1,412 @@
-import ChemModel.Model.NumFmt
+/-
+C20 — printed numbers and parameters denote the value they were given.
+
+Property theorems only (helper lemmas: Proofs/NumFmt.lean; executable model of
+chempy/printing/numbers.py and `_Reaction_param_str`: Model/NumFmt.lean; the tables and
+templates the model uses are regenerated from the source on every run: Gen/PrintingNumbers.lean).
+
+Reading guide.  A float is its exact binary value `x : ℚ`.  `'%.{p}g' % x` goes through the decimal
+record `roundSig p x = (neg, m, e)` which denotes `±m · 10^(e-p+1)`.  Texts are `List Char`.
+-/
+import ChemModel.Proofs.NumFmt
+
 namespace ChemModel.C20
-open ChemModel.NumFmt
-theorem placeholder : roman 4 = ['I','V'] := by decide
+open ChemModel.NumFmt ChemModel.Gen.PrintingNumbers
+
+/-! ## `%.{p}g`: the decimal record denotes `x` to `p` significant digits -/
+
+/-- **roundSig_spec.** For every non-zero rational `x` and `p ≥ 1` the record `(neg, m, e)` has a
+`p`-digit significand, `10^(p-1) ≤ m < 10^p`, carries the sign of `x`, and `m · 10^(e-p+1)` is within
+half a unit of the last printed place of `|x|` — including the case where rounding carries into a new
+decade (9.9996 → 10.00). -/
+theorem roundSig_spec (p : ℕ) (hp : 1 ≤ p) (x : ℚ) (hx : x ≠ 0) :
+    10 ^ (p - 1) ≤ (roundSig p x).m ∧ (roundSig p x).m < 10 ^ p ∧
+    (roundSig p x).neg = decide (x < 0) ∧
+    |((roundSig p x).m : ℚ) * (10 : ℚ) ^ ((roundSig p x).e - (p : ℤ) + 1) - (|x|)|
+      ≤ (10 : ℚ) ^ ((roundSig p x).e - (p : ℤ) + 1) / 2 :=
+  roundSig_spec' p hp x hx
+
+/-- The signed value of the record is within half a unit of the last place of `x` itself. -/
+theorem roundSig_value (p : ℕ) (hp : 1 ≤ p) (x : ℚ) (hx : x ≠ 0) :
+    |(roundSig p x).value p - x| ≤ (10 : ℚ) ^ ((roundSig p x).e - (p : ℤ) + 1) / 2 := by
+  obtain ⟨_, _, hneg, h⟩ := roundSig_spec' p hp x hx
+  unfold Dec.value
+  rw [hneg, pow10_eq_zpow]
+  by_cases hlt : x < 0
+  · simp only [hlt, decide_true, if_true]
+    rw [abs_of_neg hlt] at h
+    rw [show -1 * ((roundSig p x).m : ℚ) * (10 : ℚ) ^ ((roundSig p x).e - (p : ℤ) + 1) - x =
+        -(((roundSig p x).m : ℚ) * (10 : ℚ) ^ ((roundSig p x).e - (p : ℤ) + 1) - -x) by ring, abs_neg]
+    exact h
+  · simp only [hlt, decide_false, Bool.false_eq_true, if_false]
+    rw [abs_of_nonneg (not_lt.mp hlt)] at h
+    rw [one_mul]
+    exact h
+
+/-- The rounding is round-half-even on the exact value: `roundHalfEven q` is an integer within `1/2`
+of `q`, and on an exact tie it is the even neighbour. -/
+theorem roundHalfEven_nearest_even (q : ℚ) :
+    |((roundHalfEven q : ℤ) : ℚ) - q| ≤ 1 / 2 ∧
+    (q - (q.floor : ℚ) = 1 / 2 → roundHalfEven q % 2 = 0) :=
+  ⟨roundHalfEven_spec q, roundHalfEven_tie q⟩
+
+/-- The decade used by `roundSig` is the true one: `10^e ≤ a < 10^(e+1)` for every positive rational. -/
+theorem ilog10_is_decade (a : ℚ) (ha : 0 < a) :
+    (10 : ℚ) ^ (ilog10 a) ≤ a ∧ a < (10 : ℚ) ^ (ilog10 a + 1) :=
+  ilog10_spec a ha
+
+/-! ## fixed vs exponent layout -/
+
+/-- **layout_choice_spec.** The fixed layout is used exactly when `-4 ≤ e < p`.  In that case the text
+contains no exponent marker; otherwise the text is `significand ++ "e" ++ sign ++ at least two digits`,
+the significand contains no `e`, and the exponent field reads back (Python `int`) as `e`. -/
+theorem layout_choice_spec (p : ℕ) (r : Dec) :
+    (useFixed p r.e = true ↔ (-4 ≤ r.e ∧ r.e < (p : ℤ))) ∧
+    (useFixed p r.e = true → 'e' ∉ layoutG p r) ∧
+    (useFixed p r.e = false →
+      layoutG p r = sigText p r ++ 'e' :: ((if r.e < 0 then '-' else '+') :: pad2 r.e.natAbs) ∧
+      'e' ∉ sigText p r ∧
+      parseInt ((if r.e < 0 then '-' else '+') :: pad2 r.e.natAbs) = some r.e) := by
+  refine ⟨by simp [useFixed], layoutG_fixed_no_e p r, fun h => ⟨layoutG_exp p r h, sigText_no_e p r, parseInt_expField r.e⟩⟩
+
+/-- The digit string of the record reads back as its significand (`m < 10^p`), has exactly `p`
+characters and all are decimal digits: the printed digits are the digits of `m`. -/
+theorem digits_denote_significand (p m : ℕ) (hm : m < 10 ^ p) :
+    readNat (digitsW p m) = m ∧ (digitsW p m).length = p ∧ ∀ c ∈ digitsW p m, isDigit c = true :=
+  ⟨by rw [readNat_digitsW, Nat.mod_eq_of_lt hm], length_digitsW p m, all_isDigit_digitsW p m⟩
+
+/-! ## LaTeX / unicode / HTML power-of-ten forms -/
+
+/-- **pow10_layout_spec (1/3): `number_to_scientific_X` follows the record.**  For `x ≠ 0` and an integer
+`fmt = p ≥ 1`: in the fixed range the `%g` text is returned unchanged followed by the unit suffix; otherwise
+the power-of-ten renderer receives the significand text and **the integer `e` of the record** as exponent,
+and the unit suffix follows the rendered number. -/
+theorem number_to_x_spec (f : Fmt) (p : ℕ) (hp : 1 ≤ p) (x : ℚ) (hx : x ≠ 0) (unit : Option (List Char)) :
+    numberToX f (some p) x unit =
+      if useFixed p (roundSig p x).e then .ok (fmtG p x ++ unitSuffix f unit)
+      else (powTenE f (sigText p (roundSig p x)) (roundSig p x).e >>= fun b => pure (b ++ unitSuffix f unit)) := by
+  unfold numberToX
+  simp only [Option.getD_some]
+  rw [fmtG_eq p hp x hx]
+  split
+  · rename_i h
+    exact renderX_fixed f _ _ (layoutG_fixed_no_e p _ h)
+  · rename_i h
+    have h' : useFixed p (roundSig p x).e = false := by simpa using h
+    rw [layoutG_exp p _ h']
+    exact renderX_exp f _ _ _ (sigText_no_e p _)
+
+/-- The unit is rendered after the number, separated by the format's space; no unit, no suffix. -/
+theorem unit_follows (f : Fmt) (flt : List Char) (unit : Option (List Char)) (body : List Char)
+    (h : renderX f flt [] = .ok body) : renderX f flt (unitSuffix f unit) = .ok (body ++ unitSuffix f unit) := by
+  unfold renderX at h ⊢
+  split at h
+  · simp only [List.append_nil] at h
+    injection h with h
+    subst h; rfl
+  · rename_i s m heq
+    cases hp : powTen f s m with
+    | error e => rw [hp] at h; cases h
+    | ok b =>
+      rw [hp] at h
+      simp only [bind, Except.bind, pure, Except.pure, List.append_nil] at h ⊢
+      injection h with h
+      subst h; rfl
+  · cases h
+
+/-- **pow10_layout_spec (2/3): the significand is omitted iff its text is one of the listed spellings of 1.**
+LaTeX: `10^{e}` resp. `sig\cdot 10^{e}`; HTML: `10<sup>e</sup>` resp. `sig&sdot;10<sup>e</sup>`;
+the exponent is `str` of the integer. -/
+theorem pow10_latex (sig : List Char) (e : ℤ) :
+    powTenE .latex sig e = .ok (if sig ∈ latexOnes then "10^{".toList ++ intStr e ++ "}".toList
+                                else sig ++ "\\cdot 10^{".toList ++ intStr e ++ "}".toList) := by
+  unfold powTenE
+  by_cases h : sig ∈ latexOnes
+  · simp only [List.contains_iff_mem, h, if_true]; rfl
+  · simp only [List.contains_iff_mem, h, if_false]; rfl
+
+theorem pow10_html (sig : List Char) (e : ℤ) :
+    powTenE .html sig e = .ok (if sig ∈ htmlOnes then "10<sup>".toList ++ intStr e ++ "</sup>".toList
+                               else sig ++ "&sdot;10<sup>".toList ++ intStr e ++ "</sup>".toList) := by
+  unfold powTenE
+  by_cases h : sig ∈ htmlOnes
+  · simp only [List.contains_iff_mem, h, if_true]; rfl
+  · simp only [List.contains_iff_mem, h, if_false]; rfl
+
+/-- superscript of a character of an integer text, and its inverse (independent table) -/
+def unSup : Char → Char
+  | '⁰' => '0' | '¹' => '1' | '²' => '2' | '³' => '3' | '⁴' => '4' | '⁵' => '5' | '⁶' => '6' | '⁷' => '7'
+  | '⁸' => '8' | '⁹' => '9' | '⁻' => '-' | '⁺' => '+' | c => c
+
+/-- every character of an integer text has a superscript in chempy's `_unicode_sup`, and `unSup` undoes it -/
+theorem sup_table_ok : ∀ c ∈ "0123456789-+".toList, ∃ u, unicodeSup.lookup c = some u ∧ unSup u = c := by
+  decide
+
+theorem intStr_chars (i : ℤ) : ∀ c ∈ intStr i, c ∈ "0123456789-+".toList := by
+  intro c hc
+  have hd : ∀ n, ∀ c ∈ natStr n, c ∈ "0123456789-+".toList := by
+    intro n c hc
+    have := all_isDigit_natDigitsF _ _ c hc
+    revert this
+    unfold isDigit
+    intro h
+    have h1 : '0' ≤ c := by simpa using (Bool.and_eq_true_iff.mp h).1
+    have h2 : c ≤ '9' := by simpa using (Bool.and_eq_true_iff.mp h).2
+    have h1' : 48 ≤ c.toNat := h1
+    have h2' : c.toNat ≤ 57 := h2
+    have : c = Char.ofNat c.toNat := (Char.ofNat_toNat c).symm
+    rw [this]
+    generalize c.toNat = k at *
+    have : k = 48 ∨ k = 49 ∨ k = 50 ∨ k = 51 ∨ k = 52 ∨ k = 53 ∨ k = 54 ∨ k = 55 ∨ k = 56 ∨ k = 57 := by omega
+    rcases this with h | h | h | h | h | h | h | h | h | h <;> subst h <;> decide
+  unfold intStr at hc
+  split at hc
+  · simp only [List.mem_cons] at hc
+    rcases hc with h | h
+    · subst h; decide
+    · exact hd _ _ h
+  · exact hd _ _ hc
+
+/-- **pow10_layout_spec (3/3), unicode.**  The exponent is written in superscripts that read back,
+character by character, as `str` of the integer `e`; significand omitted iff listed; `sig·10` otherwise. -/
+theorem pow10_unicode (sig : List Char) (e : ℤ) :
+    ∃ sup, supMap (intStr e) = .ok sup ∧ sup.map unSup = intStr e ∧
+      powTenE .unicode sig e = .ok (if sig ∈ unicodeOnes then "10".toList ++ sup
+                                    else sig ++ "·10".toList ++ sup) := by
+  have key : ∀ s : List Char, (∀ c ∈ s, c ∈ "0123456789-+".toList) → ∃ sup, supMap s = .ok sup ∧ sup.map unSup = s := by
+    intro s
+    induction s with
+    | nil => intro _; exact ⟨[], rfl, rfl⟩
+    | cons c cs ih =>
+      intro h
+      obtain ⟨sup, h1, h2⟩ := ih (fun c hc => h c (List.mem_cons_of_mem _ hc))
+      obtain ⟨u, hu1, hu2⟩ := sup_table_ok c (h c (by simp))
+      refine ⟨u :: sup, ?_, by simp [hu2, h2]⟩
+      show (supMap cs >>= fun rest => match unicodeSup.lookup c with
+        | some u => pure (u :: rest) | none => throw "TypeError") = _
+      rw [h1, hu1]
+      rfl
+  obtain ⟨sup, h1, h2⟩ := key (intStr e) (intStr_chars e)
+  refine ⟨sup, h1, h2, ?_⟩
+  unfold powTenE
+  simp only [h1, bind, Except.bind]
+  by_cases h : sig ∈ unicodeOnes
+  · simp only [List.contains_iff_mem, h, if_true]; rfl
+  · simp only [List.contains_iff_mem, h, if_false]; rfl
+
+/-- The exponent text is the integer it is: Python `int(str(e)) == e` on the model's own reader. -/
+theorem exponent_reads_back (e : ℤ) : parseInt (intStr e) = some e := parseInt_intStr e
+
+/-- decimal value of a plain numeral text `ddd[.ddd]` -/
+def plainValue (s : List Char) : Option ℚ :=
+  (readFixed s).map fun nw => (nw.1 : ℚ) / (10 : ℚ) ^ nw.2
+
+/-- Every spelling that makes a renderer drop the significand denotes exactly 1, and the spelling `%g`
+produces for a unit significand (`"1"`) is among them — in all three renderers.  (Semantic statement over
+the regenerated tables: a harmless reorder or dropping the unreachable `"1.0"` keeps it true; listing `"2"`,
+`"-1"` or removing `"1"` does not.) -/
+theorem omitted_iff_one :
+    (∀ s ∈ latexOnes ++ unicodeOnes ++ htmlOnes, plainValue s = some 1) ∧
+    ['1'] ∈ latexOnes ∧ ['1'] ∈ unicodeOnes ∧ ['1'] ∈ htmlOnes := by
+  decide +kernel
+
+/-- What `%g` gives for a unit significand is exactly `"1"` (so the omission rule fires for it): the
+exponent-layout significand of a record with `m = 10^(p-1)` and positive sign. -/
+theorem unit_significand_text : ∀ p, 1 ≤ p → p ≤ 17 → sigText p ⟨false, 10 ^ (p - 1), 0⟩ = ['1'] := by
+  decide +kernel
+
+/-! ## roman numerals -/
+
+/-- **roman_denotes (additive).** For ALL `n` the values of the tokens `roman n` concatenates add up to `n`,
+every emitted token is an entry of the source table, and `roman n` is their concatenation. -/
+theorem roman_denotes (n : ℕ) :
+    tokSum (romanToks n) = n ∧ (∀ tk ∈ romanToks n, tk ∈ romanTable) ∧
+    roman n = ((romanToks n).map Prod.fst).flatten := by
+  refine ⟨?_, romanLoop_mem romanTable n, rfl⟩
+  have h := romanLoop_sum romanTable n
+  have hr := romanLoop_rem romanTable (by decide) n
+  unfold romanToks
+  omega
+
+/-- **roman_denotes (subtractive, 1…3999).** An independent right-to-left subtractive reader that knows only
+the seven symbol values returns `n` for every `n < 4000`. -/
+theorem roman_reads_back_3999 : ∀ n, n < 4000 → readRoman (roman n) = (n : ℤ) := by
+  have c0 : ∀ n, n < 500 → readRoman (roman (0 + n)) = ((0 + n : ℕ) : ℤ) := by decide +kernel
+  have c1 : ∀ n, n < 500 → readRoman (roman (500 + n)) = ((500 + n : ℕ) : ℤ) := by decide +kernel
+  have c2 : ∀ n, n < 500 → readRoman (roman (1000 + n)) = ((1000 + n : ℕ) : ℤ) := by decide +kernel
+  have c3 : ∀ n, n < 500 → readRoman (roman (1500 + n)) = ((1500 + n : ℕ) : ℤ) := by decide +kernel
+  have c4 : ∀ n, n < 500 → readRoman (roman (2000 + n)) = ((2000 + n : ℕ) : ℤ) := by decide +kernel
+  have c5 : ∀ n, n < 500 → readRoman (roman (2500 + n)) = ((2500 + n : ℕ) : ℤ) := by decide +kernel
+  have c6 : ∀ n, n < 500 → readRoman (roman (3000 + n)) = ((3000 + n : ℕ) : ℤ) := by decide +kernel
+  have c7 : ∀ n, n < 500 → readRoman (roman (3500 + n)) = ((3500 + n : ℕ) : ℤ) := by decide +kernel
+  intro n hn
+  have hk : n / 500 = 0 ∨ n / 500 = 1 ∨ n / 500 = 2 ∨ n / 500 = 3 ∨ n / 500 = 4 ∨ n / 500 = 5 ∨ n / 500 = 6 ∨ n / 500 = 7 := by
+    omega
+  rcases hk with h | h | h | h | h | h | h | h
+  · have := c0 (n % 500) (by omega); rwa [show 0 + n % 500 = n by omega] at this
+  · have := c1 (n % 500) (by omega); rwa [show 500 + n % 500 = n by omega] at this
+  · have := c2 (n % 500) (by omega); rwa [show 1000 + n % 500 = n by omega] at this
+  · have := c3 (n % 500) (by omega); rwa [show 1500 + n % 500 = n by omega] at this
+  · have := c4 (n % 500) (by omega); rwa [show 2000 + n % 500 = n by omega] at this
+  · have := c5 (n % 500) (by omega); rwa [show 2500 + n % 500 = n by omega] at this
+  · have := c6 (n % 500) (by omega); rwa [show 3000 + n % 500 = n by omega] at this
+  · have := c7 (n % 500) (by omega); rwa [show 3500 + n % 500 = n by omega] at this
+
+/-- **roman_denotes (subtractive, all n).** `roman n` is `n / 1000` times `M` followed by `roman (n % 1000)`,
+hence the subtractive reader returns `n` for every natural number. -/
+theorem roman_reads_back (n : ℕ) : readRoman (roman n) = (n : ℤ) := by
+  have hT : romanTable = (['M'], 1000) :: romanTable.tail := by decide
+  have hsplit : roman n = List.replicate (n / 1000) 'M' ++ roman (n % 1000) := by
+    unfold roman romanToks
+    rw [hT, romanLoop_step, romanLoop_step, flatten_map_replicate, flatten_map_replicate,
+      flatten_replicate_singleton, flatten_replicate_singleton]
+    have h1 : n % 1000 / 1000 = 0 := by omega
+    have h3 : n - 1000 * (n / 1000) = n % 1000 := by omega
+    rw [h1, h3]
+    simp
+  rw [hsplit, readRoman_M_prefix, roman_reads_back_3999 (n % 1000) (by omega)]
+  omega
+
+/-! ## value(uncertainty) notation -/
+
+/-- **uncert_denotes (values).** With `q = floor(log10 |xe|) - precision + 1` (the uncertainty's last kept
+digit): the printed nominal integer `noInt` and uncertainty integer `unInt` satisfy
+`|noInt·10^q − x| ≤ 10^q/2` and `|unInt·10^q − xe| ≤ 10^q/2`; `q` is computed from the true decade of `|xe|`. -/
+theorem uncert_denotes (x xe : ℚ) (hxe : xe ≠ 0) (prec : ℤ) :
+    let u := uncertRecord x xe prec
+    u.noExp = ilog10 |xe| - prec + 1 ∧
+    ((10 : ℚ) ^ ilog10 |xe| ≤ |xe| ∧ |xe| < (10 : ℚ) ^ (ilog10 |xe| + 1)) ∧
+    u.xExp = ilog10 |x| ∧
+    |(u.noInt : ℚ) * (10 : ℚ) ^ u.noExp - x| ≤ (10 : ℚ) ^ u.noExp / 2 ∧
+    |(u.unInt : ℚ) * (10 : ℚ) ^ u.noExp - xe| ≤ (10 : ℚ) ^ u.noExp / 2 := by
+  simp only [uncertRecord, absR_eq_abs]
+  exact ⟨trivial, ilog10_spec _ (abs_pos.mpr hxe), trivial, round_at x _, round_at xe _⟩
+
+/-- **uncert_denotes (digits).** For a positive uncertainty and `precision ≥ 1` the uncertainty integer has the
+requested number of digits, `10^(prec-1) ≤ unInt ≤ 10^prec` (the upper end only by a rounding carry, 9.6 → 10). -/
+theorem uncert_digits (x xe : ℚ) (hxe : 0 < xe) (prec : ℕ) (hp : 1 ≤ prec) :
+    ((10 ^ (prec - 1) : ℕ) : ℤ) ≤ (uncertRecord x xe prec).unInt ∧
+    (uncertRecord x xe prec).unInt ≤ ((10 ^ prec : ℕ) : ℤ) := by
+  obtain ⟨b1, b2, _⟩ := roundSig_core prec hp xe hxe
+  simp only [uncertRecord, absR_eq_abs, abs_of_pos hxe, mul_pow10_neg]
+  exact ⟨b1, b2⟩
+
+/-- **uncert_denotes (layout).** When the code's guards pass (`x, xe ≠ 0`, no int→float overflow, the value is
+not below the uncertainty's last digit) the result is one of the two layouts, it is the shorter one, and a tie
+goes to the plain layout. -/
+theorem uncert_shortest (x xe : ℚ) (prec : ℤ) (hx : x ≠ 0) (hxe : xe ≠ 0)
+    (hov : ¬ 309 ≤ -(uncertRecord x xe prec).noExp)
+    (hfw : ¬ (uncertRecord x xe prec).xExp - (uncertRecord x xe prec).noExp < 0) :
+    let u := uncertRecord x xe prec
+    ∃ s, floatStrWUncert x xe prec = .ok s ∧ (s = uncertLayout1 u ∨ s = uncertLayout2 u) ∧
+      s.length = min (uncertLayout1 u).length (uncertLayout2 u).length ∧
+      ((uncertLayout2 u).length ≤ (uncertLayout1 u).length → s = uncertLayout2 u) := by
+  refine ⟨shortest (uncertLayout1 _) (uncertLayout2 _), ?_, shortest_cases _ _, shortest_length _ _, ?_⟩
+  · unfold floatStrWUncert
+    simp only [hx, hxe, or_self, if_false, hov, hfw]
+    rfl
+  · intro h; unfold shortest; simp [h]
+
+/-- **uncert_denotes (the two layouts denote the same numbers).**  The nominal text of the exponent layout reads
+back (explicit reader `readFixed`: digits as one integer, number of decimals) as `noInt` with `xExp − q`
+decimals, so with its exponent `xExp` it denotes `noInt · 10^(−(xExp−q)) · 10^xExp = noInt · 10^q`; the
+parenthesis shows `unInt`, in units of the last printed digit. The plain layout shows `noInt` with `−q` decimals
+(`q < 0`), or the integers `noInt·10^q`, `unInt·10^q` (`q ≥ 0`). -/
+theorem uncert_layouts_denote (u : Uncert) (hfw : 0 ≤ u.xExp - u.noExp) :
+    (∃ nom, uncertLayout1 u = nom ++ '(' :: intStr u.unInt ++ ')' :: 'e' :: intStr u.xExp ∧
+        readFixed nom = some (u.noInt, (u.xExp - u.noExp).toNat) ∧
+        (u.noInt : ℚ) / (10 : ℚ) ^ (u.xExp - u.noExp).toNat * (10 : ℚ) ^ u.xExp = (u.noInt : ℚ) * (10 : ℚ) ^ u.noExp) ∧
+    (u.noExp < 0 → ∃ nom, uncertLayout2 u = nom ++ '(' :: intStr u.unInt ++ [')'] ∧
+        readFixed nom = some (u.noInt, (-u.noExp).toNat) ∧
+        (u.noInt : ℚ) / (10 : ℚ) ^ (-u.noExp).toNat = (u.noInt : ℚ) * (10 : ℚ) ^ u.noExp) ∧
+    (0 ≤ u.noExp → ∃ nom, uncertLayout2 u = nom ++ '(' :: intStr (u.unInt * (10 ^ u.noExp.toNat : ℕ)) ++ [')'] ∧
+        readFixed nom = some (u.noInt * (10 ^ u.noExp.toNat : ℕ), 0) ∧
+        ((u.noInt * (10 ^ u.noExp.toNat : ℕ) : ℤ) : ℚ) = (u.noInt : ℚ) * (10 : ℚ) ^ u.noExp) := by
+  refine ⟨⟨_, rfl, readFixed_fixedStr _ _, ?_⟩, fun hq => ⟨_, ?_, readFixed_fixedStr _ _, ?_⟩,
+    fun hq => ⟨_, ?_, readFixed_fixedStr _ _, ?_⟩⟩
+  · obtain ⟨k, hk⟩ : ∃ k : ℕ, u.xExp - u.noExp = (k : ℤ) := ⟨(u.xExp - u.noExp).toNat, by omega⟩
+    rw [hk, Int.toNat_natCast]
+    have : u.xExp = u.noExp + (k : ℤ) := by omega
+    rw [this, zpow_add₀ (by norm_num), zpow_natCast]
+    field_simp
+  · unfold uncertLayout2
+    have h0 : ¬ (0 ≤ u.noExp) := by omega
+    have h1 : u.noExp.toNat = 0 := by omega
+    simp [h0, h1]
+  · obtain ⟨k, hk⟩ : ∃ k : ℕ, u.noExp = -(k : ℤ) := ⟨(-u.noExp).toNat, by omega⟩
+    rw [hk, neg_neg, Int.toNat_natCast, zpow_neg, zpow_natCast, div_eq_mul_inv]
+  · unfold uncertLayout2
+    simp [hq]
+  · obtain ⟨k, hk⟩ : ∃ k : ℕ, u.noExp = (k : ℤ) := ⟨u.noExp.toNat, by omega⟩
+    rw [hk, Int.toNat_natCast, zpow_natCast]
+    push_cast
+    ring
+
+/-- **defect witness (real code, mirrored by the model).** Inside the property's stated domain
+(`x = 1e-300`, relative uncertainty `1e-7`, 3 digits) `_float_str_w_uncert` does not produce a text at all:
+`xe * 10 ** 309` raises OverflowError ("int too large to convert to float").  The two rationals are the exact
+values of the floats `1e-300` and `1e-307`. -/
+theorem uncert_overflow_defect_witness :
+    floatStrWUncert (mkRat 6032057205060441 (2 ^ 1049)) (mkRat 5060056332682765 (2 ^ 1072)) 3
+      = .error "OverflowError" := by
+  decide +kernel
+
+/-! ## a reaction printed with its parameter -/
+
+/-- **param_str_spec.** `_Reaction_param_str`: a quantity parameter is printed as the formatted magnitude, one
+space, the unit text; a float as the formatted magnitude alone; anything else as its `str`.  The magnitude
+format is `%.3g` for the plain printer and `number_to_scientific_X` with the default precision for the
+unicode / LaTeX / HTML printers. -/
+theorem param_str_spec (pr : Printer) (mag : ℚ) (unitText other : List Char) :
+    reactionParamStr pr (.quantity mag unitText) = (magFmt pr mag >>= fun s => pure (s ++ ' ' :: unitText)) ∧
+    reactionParamStr pr (.float mag) = magFmt pr mag ∧
+    reactionParamStr pr (.other other) = .ok other ∧
+    magFmt .str mag = .ok (fmtG strMagnitudePrecision mag) ∧
+    magFmt .unicode mag = numberToX .unicode (some defaultPrecision) mag none ∧
+    magFmt .latex mag = numberToX .latex (some defaultPrecision) mag none ∧
+    magFmt .html mag = numberToX .html (some defaultPrecision) mag none :=
+  ⟨rfl, rfl, rfl, rfl, rfl, rfl, rfl⟩
+
+/-- The printed reaction line is the reaction text, then separator and parameter, then separator and name;
+so the parameter text of `param_str_spec` appears verbatim right after the reaction and its separator. -/
+theorem reaction_line_spec (pr : Printer) (rxn : List Char) (p : Param) (ptext : List Char)
+    (hp : reactionParamStr pr p = .ok ptext) (name : Option (List Char)) :
+    reactionLine pr rxn (some p) name =
+      .ok (rxn ++ separator pr ++ ptext ++ (match name with | none => [] | some n => separator pr ++ n)) := by
+  unfold reactionLine
+  simp only [hp, bind, Except.bind, pure, Except.pure]
+  cases name <;> simp
+
+/-- The default precisions the source currently has are the documented ones (5 digits for a bare number,
+2 digits of uncertainty, `%.3g` for the plain printer). -/
+theorem default_precisions : defaultPrecision = 5 ∧ defaultUncertPrecision = 2 ∧ strMagnitudePrecision = 3 := by
+  decide
+
+/-! ## non-vacuity: the hypotheses are satisfiable and the statements say something on concrete inputs -/
+
+/-- 9.9996 at 4 digits carries into the next decade: record (+, 1000, 1), text "10". -/
+example : roundSig 4 (99996 / 10000) = ⟨false, 1000, 1⟩ ∧ fmtG 4 (99996 / 10000) = "10".toList := by
+  decide +kernel
+
+/-- 1.0004e5 at 3 digits has significand exactly 1: LaTeX `10^{5}`; at 5 digits it has not. -/
+example : numberToX .latex (some 3) 100040 none = .ok "10^{5}".toList ∧
+    numberToX .latex (some 5) 100040 none = .ok "1.0004\\cdot 10^{5}".toList ∧
+    numberToX .html (some 3) (-100040) (some "m/s".toList) = .ok "-1&sdot;10<sup>5</sup> m/s".toList := by
+  decide +kernel
+
+example : numberToX .unicode none (314159265 / 10 ^ 15) (some "m/s".toList) = .ok "3.1416·10⁻⁷ m/s".toList := by
+  decide +kernel
+
+/-- the docstring examples of `_float_str_w_uncert` -/
+example : floatStrWUncert (-999752) 349 3 = .ok "-999752(349)".toList ∧
+    floatStrWUncert (-9997520000000000) 3490000000000 2 = .ok "-9.9975(35)e15".toList ∧
+    floatStrWUncert (31416 / 10000) (29 / 1000) 1 = .ok "3.14(3)".toList ∧
+    floatStrWUncert 3141600000 2900000 1 = .ok "3.142(3)e9".toList := by
+  decide +kernel
+
+example : roman 1994 = "MCMXCIV".toList ∧ roman 17 = "XVII".toList ∧ roman 0 = [] := by decide +kernel
+
+example : reactionLine .html "A &rarr; B".toList (some (.quantity 140000000000 "1/(s*M)".toList)) (some "r1".toList)
+    = .ok "A &rarr; B&#59; 1.4&sdot;10<sup>11</sup> 1/(s*M)&#59; r1".toList := by decide +kernel
+
 end ChemModel.C20
